@@ -97,6 +97,12 @@ Definition cancel_conf_change (n : node) : node :=
   | None => n
   end.
 
+(* r.followers[id] = &follower{nextIndex: next}: a fresh object; the one it replaces may still be held by a goroutine *)
+Definition new_follower (n : node) (id : nid) (next : N) : node :=
+  n <| n_orphans ::= fun l => l ++ match lookup id (n_followers n) with Some f => [f] | None => [] end |>
+    <| n_followers ::= put id {| f_next := next; f_match := 0; f_snap := None; f_gen := n_fgen n |} |>
+    <| n_fgen ::= N.succ |>.
+
 (* resetSnapshotFiles: close readers, discard the writer *)
 Definition reset_snapshot_files (n : node) : node :=
   n <| n_followers ::= map (fun p => (fst p, snd p <| f_snap := None |>)) |> <| n_partial := None |>.
@@ -119,10 +125,11 @@ Definition next_configuration (now : N) (n : node) (next : option config) : node
       let cur := conf_of n in
       let n1 := if is_member nx (n_id n) then n
                 else reset_snapshot_files (if role_eqb (n_role n) Leader then stepdown now n else n) in
-      let fs1 := filter (fun p => negb (is_member cur (fst p)) || is_member nx (fst p)) (n_followers n1) in
+      let keep := fun p : nid * fstate => negb (is_member cur (fst p)) || is_member nx (fst p) in
+      let n2 := n1 <| n_orphans ::= fun l => l ++ map snd (filter (fun p => negb (keep p)) (n_followers n1)) |>
+                   <| n_followers ::= filter keep |> in
       let added := filter (fun id => negb (is_member cur id)) (member_ids nx) in
-      let fs2 := fold_left (fun fs id => put id fstate0 fs) added fs1 in
-      n1 <| n_followers := fs2 |> <| n_conf := Some nx |>
+      (fold_left (fun m id => new_follower m id 0) added n2) <| n_conf := Some nx |>
   end.
 
 (* applyConfiguration(data) *)
